@@ -16,6 +16,7 @@ const ruleC19 = "model-based state machine over collections of JSON-representabl
 func c19Profile() *sm.Profile {
 	return &sm.Profile{
 		Name:        "c19",
+		FaultRate:   12,
 		Colls:       []string{"src", "dst", "dst2", "other"},
 		IndexFields: []string{"x", "y", "n.a", "t"},
 		Doc:         gen.DocCfg{Val: gen.ValCfg{MaxDepth: 2, JSONSafe: true, MinuteTZ: true}, PAbsent: 4, DottedKey: true},
